@@ -6,11 +6,16 @@ WORKER = os.path.join(lib.VERIF, "harness", "screen_worker.py")
 
 
 class Worker:
-    def __init__(self):
+    def __init__(self, case_timeout=None):
+        env = dict(lib.ENV)
+        if case_timeout:
+            env["VERIF_CASE_TIMEOUT"] = str(case_timeout)
+        self.case_timeout = case_timeout or 8
         self.p = subprocess.Popen([lib.PY, WORKER], stdin=subprocess.PIPE, stdout=subprocess.PIPE,
-                                  stderr=subprocess.DEVNULL, text=True, env=lib.ENV, bufsize=1)
+                                  stderr=subprocess.DEVNULL, text=True, env=env, bufsize=1)
 
-    def run(self, case, timeout=15):
+    def run(self, case, timeout=None):
+        timeout = timeout or (self.case_timeout + 7)
         try:
             self.p.stdin.write(json.dumps(case) + "\n"); self.p.stdin.flush()
         except BrokenPipeError:
@@ -59,3 +64,12 @@ def run_cases(cases, nproc=12):
     for t in ts:
         t.join()
     return results
+
+
+def run_alone(case, case_timeout=45):
+    """One session in its own worker with a generous time limit."""
+    w = Worker(case_timeout=case_timeout)
+    try:
+        return w.run(case)
+    finally:
+        w.kill()
